@@ -318,7 +318,26 @@ def region_subdaily_vtimezone_rrule(case):
     return b"VTIMEZONE" in data and bool(re.search(rb"FREQ\s*=\s*(SECONDLY|MINUTELY|HOURLY)", data))
 
 
-REGIONS = {"subdaily-vtimezone-rrule": region_subdaily_vtimezone_rrule}
+def region_sparse_subdaily_vtimezone_rrule(case):
+    """RC-AN: a VTIMEZONE observance RRULE with a sub-daily FREQ *and* a BY... part: under pytz every period between DTSTART and
+    2038 (or forever, with COUNT) is visited although the filter lets (almost) none pass - the bound on yielded transitions
+    does not bound the work."""
+    if case["gen"] == "isolate":
+        return False
+    data = the_input(case)
+    if isinstance(data, str):
+        data = data.encode("utf-8", "replace")
+    data = data.upper()
+    if b"VTIMEZONE" not in data:
+        return False
+    for m_ in re.finditer(rb"RRULE[^\r\n:]*:([^\r\n]*)", data):
+        rule = m_.group(1)
+        if re.search(rb"FREQ\s*=\s*(SECONDLY|MINUTELY|HOURLY)", rule) and re.search(rb"(^|;)\s*BY[A-Z]+\s*=", rule):
+            return True
+    return False
+
+
+REGIONS = {"subdaily-vtimezone-rrule": region_subdaily_vtimezone_rrule, "sparse-subdaily-vtimezone-rrule": region_sparse_subdaily_vtimezone_rrule}
 
 # ----------------------------------------------------------------------------- strategies
 COMPS = ["VCALENDAR", "VEVENT", "VTODO", "VJOURNAL", "VFREEBUSY", "VTIMEZONE", "STANDARD", "DAYLIGHT", "VALARM", "X-FOO"]
@@ -478,7 +497,19 @@ def streams(tier):
         Stream("structured-hostile", "hyp", n, 12, hostile_cases, timeout_s=10),
         Stream("isolation", "hyp", n // 2, 8, isolate_cases, timeout_s=10),
         Stream("hostile-under-python-O", "hyp", 30 if tier == "quick" else 200, 16, lambda: st.one_of(hostile_cases(), hostile_cases(only=["vtimezone", "vtimezone-edge", "vtimezone-edge"]), hostile_cases(only=["vtimezone-edge"]), isolate_cases()).map(lambda c: dict(c, interp="-O")), timeout_s=600),
-    ] + ([Stream("atheris-bytes", "custom", 0, 8, _atheris, timeout_s=10)] if tier == "thorough" else [])
+    ] + ([Stream("atheris-bytes", "custom", 0, 8, _atheris, timeout_s=10),
+          # expensive (each case runs into the watchdog and is confirmed in a fresh process): thorough tier only
+          Stream("sparse-subdaily-vtimezone-rules", "hyp", 2, 8, _sparse_rule_cases, timeout_s=10)] if tier == "thorough" else [])
+
+
+@st.composite
+def _sparse_rule_cases(draw):
+    rule = draw(st.sampled_from(["FREQ=HOURLY;BYSETPOS=54", "FREQ=SECONDLY;BYHOUR=2;BYSETPOS=24", "FREQ=MINUTELY;BYMONTH=2;BYMONTHDAY=30", "FREQ=HOURLY;BYMONTHDAY=31;BYMONTH=2;COUNT=2",
+                                 "FREQ=SECONDLY;BYYEARDAY=-100;INTERVAL=366"]))
+    start = draw(st.sampled_from(["00010101T000000", "16010101T000000", "19700101T000000"]))
+    lines = ["BEGIN:VCALENDAR", "BEGIN:VTIMEZONE", "TZID:custom", "BEGIN:STANDARD", "DTSTART:19700101T000000", "TZOFFSETFROM:+0100", "TZOFFSETTO:+0200", "END:STANDARD",
+             "BEGIN:DAYLIGHT", f"DTSTART:{start}", "TZOFFSETFROM:+0100", "TZOFFSETTO:+0200", f"RRULE:{rule}", "END:DAYLIGHT", "END:VTIMEZONE", "END:VCALENDAR"]
+    return {"gen": "hostile", "what": "vtimezone", "lines": lines}
 
 
 def _atheris(ctx):
